@@ -2116,7 +2116,7 @@ class Process:
                 hit_enoent = True
                 continue
             # ignore the first two values ("pid (exe)")
-            st = st[st.find(b')') + 2 :]
+            st = st[st.rfind(b')') + 2 :]
             values = st.split(b' ')
             utime = float(values[11]) / CLOCK_TICKS
             stime = float(values[12]) / CLOCK_TICKS
